@@ -28,6 +28,9 @@ Negs == { <<"neg", a>> : a \in Leaves6 } \cup { <<o, <<"neg">>[1], a, b>> : o \i
         \cup { <<"*", c, o, "neg", a, b>> : c \in {"2"}, o \in {"+", "-"}, a \in {"size", "3", "length(name)"}, b \in {"20", "size"} }
         \cup { <<"-", c, "neg", a>> : c \in {"2", "size"}, a \in {"size", "3"} }
         \cup { <<"*", "2", "-", "neg", "+", "size", "1", "3">> }
+        \* a negation of a negation: -(-x), -(-(a + b)), c - -(-3)
+        \cup { <<"neg", "neg", a>> : a \in {"size", "3", "length(name)"} }
+        \cup { <<"neg", "neg", "+", "size", "1">>, <<"-", "10", "neg", "neg", "3">>, <<"neg", "neg", "neg", "size">>, <<"*", "neg", "neg", "size", "2">> }
 
 Init == kind = "" /\ exprs = <<>> /\ wop = "" /\ wlit = 0 /\ style = "min" /\ phase = "start"
 ChooseOne == /\ phase = "start" /\ kind' = "one" /\ \E e \in One \cup TwoL \cup TwoR \cup Negs : exprs' = <<e>>
@@ -58,7 +61,7 @@ HasTok(t) == \E j \in 1 .. Len(exprs) : \E i \in 1 .. Len(exprs[j]) : exprs[j][i
 NegOnColumn == \E j \in 1 .. Len(exprs) : \E i \in 1 .. Len(exprs[j]) - 1 :
                   exprs[j][i] = "neg" /\ exprs[j][i + 1] \in {"size", "hardlinks", "length(name)"}
 NegOnBracket == \E j \in 1 .. Len(exprs) : \E i \in 1 .. Len(exprs[j]) - 1 : exprs[j][i] = "neg" /\ exprs[j][i + 1] \in BinOps
-BareLiteral == kind = "where" /\ Len(exprs[1]) = 2 /\ exprs[1][1] = "neg" /\ exprs[1][2] \in {"2", "3", "10"}
+BareLiteral == kind = "where" /\ exprs[1][1] = "neg" /\ \A i \in 1 .. Len(exprs[1]) : exprs[1][i] \in {"neg", "2", "3", "10"}      \* a negated literal: no column, no operator
 Class == kind \o (IF BareLiteral THEN "/bare-literal" ELSE "") \o (IF NegOnColumn THEN "/minus-column" ELSE "") \o (IF NegOnBracket THEN "/minus-bracket" ELSE "")
          \o (IF HasTok("neg") /\ ~NegOnColumn /\ ~NegOnBracket THEN "/minus-number" ELSE "") \o "/" \o style
 Query == IF kind = "where"
